@@ -48,3 +48,27 @@ Section Projections.
   Lemma same_coverage : coverage D I = coverage D S.
   Proof. rewrite same_run. reflexivity. Qed.
 End Projections.
+
+(* ================================================================ the delivery log only grows *)
+Section LogGrows.
+  Variable D : data.
+  Variable analyses : list (analysis (earg (d_val D))).
+  Variable modpath : string.
+
+  (* whatever the analyses answer: a run appends to the log of deliveries, in the order the notifications happen;
+     nothing delivered earlier is dropped, rewritten or reordered *)
+  Theorem reference_log_grows (H : list string) (p : program) (fuel : nat) (s : state D) :
+    src_prog p = true ->
+    exists d, deliveries D (ref_run D analyses modpath H fuel p s) = dels (eng s) ++ d.
+  Proof.
+    intros Hs. unfold src_prog in Hs. apply andb_true_iff in Hs; destruct Hs as [Hsf Hsm].
+    unfold deliveries, ref_run. eapply grows_module; eauto.
+  Qed.
+  Theorem instrumented_log_grows (H : list string) (p : program) (fuel : nat) (s : state D) :
+    pure_truth D -> src_prog p = true -> ok_prog H p = true ->
+    exists d, deliveries D (inst_run D analyses modpath H fuel p s) = dels (eng s) ++ d.
+  Proof.
+    intros Hp Hs Ho. rewrite (instrumented_is_reference D analyses modpath H p fuel s Hp Hs Ho).
+    apply reference_log_grows; exact Hs.
+  Qed.
+End LogGrows.
